@@ -7,12 +7,14 @@ without the state leaf callback); `refs e role h v` is what a reader of the stor
 the repository issues (roots added without parent in the role they are read in, accepted blobs consistent with
 `role`).  `e.view` (decodeNode + leaf callback) and `e.H` (Keccak-256) are uninterpreted.
 
-All theorems are about `run e (St.init db0) ops` for an arbitrary operation list `ops`: every prefix of a
-schedule is again such a list, so each statement holds at every interruption point, for every order, batching,
-duplication, omission and corruption of responses, every `Missing` answer, every failing `Commit` writer and
-every restart.
+All theorems are about `run e (St.init db0) ops` for an arbitrary operation list `ops` with `RunOK`: every prefix
+of a schedule is again such a list, so each statement holds at every interruption point, for every order,
+batching, duplication, omission and corruption of responses, every `Missing` answer, every failing `Commit`
+writer and every restart.  `RunOK` constrains only the blobs that are *accepted* (role-consistent: true of a
+clash-free source unless Keccak collides; its failure is finding F-C19a, proved below); rejected blobs —
+corrupted, unsolicited, late — are arbitrary.
 -/
-import YouVerif.C19.ProofsProcess
+import YouVerif.C19.ProofsContent
 
 namespace YouVerif.C19
 
@@ -44,10 +46,10 @@ theorem unrequested_item_rejected (e : Env) (s : St) (h : Hash) (b : Blob) (rest
 /-- **closed_under_children.**  After any schedule, every entry of the database or of the membatch is usable in
 its role and everything it references is in the database or the membatch. -/
 theorem closed_under_children {db0 : List Entry} {ops : List Op} (hd : DbClosed e role db0)
-    (hok : ∀ op ∈ ops, OpOK e role op) (h : Hash) (v : Option Blob)
+    (hok : RunOK e role (St.init db0) ops) (h : Hash) (v : Option Blob)
     (hm : (h, v) ∈ (run e (St.init db0) ops).db ∨ (h, v) ∈ (run e (St.init db0) ops).membatch) :
     GoodEntry e role h v ∧ ∀ x ∈ refs e role h v, (run e (St.init db0) ops).inStore x = true := by
-  have hi := run_inv ops _ (init_inv hd) hok
+  have hi := run_inv_at ops _ (init_inv hd) hok
   rcases hm with hm | hm
   · obtain ⟨g, r⟩ := hi.db h v hm
     exact ⟨g, fun x hx => by rw [inStore_iff]; exact Or.inl (r x hx)⟩
@@ -57,18 +59,128 @@ theorem closed_under_children {db0 : List Entry} {ops : List Op} (hd : DbClosed 
 /-- The database alone is closed (the membatch is flushed in completion order, children first, so this also holds
 after a `Commit` whose writer failed half-way: `.commit (some k)` is one of the operations). -/
 theorem db_closed_always {db0 : List Entry} {ops : List Op} (hd : DbClosed e role db0)
-    (hok : ∀ op ∈ ops, OpOK e role op) : DbClosed e role (run e (St.init db0) ops).db :=
-  (run_inv ops _ (init_inv hd) hok).db
+    (hok : RunOK e role (St.init db0) ops) : DbClosed e role (run e (St.init db0) ops).db :=
+  (run_inv_at ops _ (init_inv hd) hok).db
 
 /-- **never_partial_as_complete.**  At every interruption point: if the root is in the database then everything a
 reader reaches from it is in the database and usable — a partially filled trie is never presented as present. -/
 theorem never_partial_as_complete {db0 : List Entry} {ops : List Op} (hd : DbClosed e role db0)
-    (hok : ∀ op ∈ ops, OpOK e role op) (root x : Hash)
+    (hok : RunOK e role (St.init db0) ops) (root x : Hash)
     (hroot : (run e (St.init db0) ops).dbHas root = true)
     (hx : Reach e role (run e (St.init db0) ops).db root x) :
     (run e (St.init db0) ops).dbHas x = true ∧
       ∀ v, (x, v) ∈ (run e (St.init db0) ops).db → GoodEntry e role x v :=
   ⟨reach_in_db (db_closed_always hd hok) hroot hx, fun v hv => ((db_closed_always hd hok) x v hv).1⟩
+
+/-! ## Completion: nothing requested is forgotten -/
+
+/-- **complete_when_done.**  Unconditionally (any operations, any blobs): if, without a restart in between, the
+sync started for `root` reports `Pending = 0`, then after `Commit` the root is in the database.  Contrapositive:
+as long as anything requested is unanswered the sync does not report completion. -/
+theorem complete_when_done {db0 : List Entry} {root : Hash} {cb : Bool} {ops : List Op}
+    (hno : ∀ op ∈ ops, op ≠ .restart) (hne : root ≠ e.emptyRoot)
+    (hdone : (run e (newSync e db0 root cb) ops).pending = 0) :
+    (step e (run e (newSync e db0 root cb) ops) (.commit none)).1.dbHas root = true := by
+  obtain ⟨s0, hs0⟩ := addSubTrie_zero_some (e := e) (St.init db0) root 0 cb
+  have hnew : newSync e db0 root cb = s0 := by simp [newSync, step, hs0]
+  obtain ⟨_, htr⟩ := kept_addSubTrie hs0
+  rw [hnew] at hdone ⊢
+  have hk := kept_run (e := e) ops s0 hno
+  have hreq : (run e s0 ops).requests = [] := List.length_eq_zero_iff.mp hdone
+  have hst : (run e s0 ops).inStore root = true := by
+    rcases htr with h | h | h
+    · exact absurd h hne
+    · exact hk.1 root h
+    · rcases hk.2 root h with ⟨p, hp, _⟩ | h
+      · rw [hreq] at hp; cases hp
+      · exact h
+  show hasKey ((run e s0 ops).membatch.reverse ++ (run e s0 ops).db) root = true
+  rw [hasKey_append, hasKey_reverse]
+  rw [inStore_iff] at hst
+  rcases hst with h | h <;> simp [h]
+
+/-! ## Content: what is stored is the source's data -/
+
+/-- Hash-checked deliveries (`deliver`, i.e. the downloader's `processNodeData`) only ever store a blob under its
+own Keccak. -/
+theorem synced_db_hash_keyed {db0 : List Entry} {ops : List Op} (h0 : HashKeyed e db0)
+    (hok : ∀ op ∈ ops, OpKeyed e op) :
+    HashKeyed e (run e (St.init db0) ops).db ∧ HashKeyed e (run e (St.init db0) ops).membatch :=
+  ⟨(hk_run ops _ (hk_init h0) hok).db, (hk_run ops _ (hk_init h0) hok).mem⟩
+
+/-- Two closed, hash-keyed databases that hold the same root show a reader exactly the same entries from that
+root — or a Keccak collision exists (no injectivity axiom). -/
+theorem reads_identical_content {d1 d2 : List Entry} {root : Hash}
+    (hc1 : DbClosed e role d1) (hk1 : HashKeyed e d1) (hc2 : DbClosed e role d2) (hk2 : HashKeyed e d2)
+    (hr1 : hasKey d1 root = true) (hr2 : hasKey d2 root = true) :
+    Collision e ∨ ∀ x, (Reach e role d1 root x ↔ Reach e role d2 root x) ∧
+      (Reach e role d1 root x → ∀ v, (x, v) ∈ d1 ↔ (x, v) ∈ d2) := by
+  by_cases hcol : Collision e
+  · exact Or.inl hcol
+  right
+  have hinj := inj_of_not_collision hcol
+  intro x
+  have h12 := fun hx => reach_transfer (x := x) hinj hc1 hk1 hc2 hk2 hr2 hx
+  have h21 := fun hx => reach_transfer (x := x) hinj hc2 hk2 hc1 hk1 hr1 hx
+  refine ⟨⟨fun hx => (h12 hx).2.1, fun hx => (h21 hx).2.1⟩, fun hx v => ⟨(h12 hx).2.2 v, ?_⟩⟩
+  exact (h21 (h12 hx).2.1).2.2 v
+
+/-- **sync_reproduces_source.**  For every schedule (any order, batching, duplication, delay, corrupted and
+unsolicited blobs, failing writers) without restart after the sync was started: once it reports completion, the
+committed database holds the root, is closed, and a reader sees from the root exactly the entries the source
+shows — or a Keccak collision exists. -/
+theorem sync_reproduces_source {db0 src : List Entry} {root : Hash} {cb : Bool} {ops : List Op}
+    (hd0 : DbClosed e role db0) (hk0 : HashKeyed e db0)
+    (hsrc : DbClosed e role src) (hksrc : HashKeyed e src) (hroot : hasKey src root = true)
+    (hrole : root = e.emptyRoot ∨ (role root = .node cb ∧ root ≠ e.zeroHash)) (hne : root ≠ e.emptyRoot)
+    (hok : RunOK e role (newSync e db0 root cb) ops) (hkey : ∀ op ∈ ops, OpKeyed e op)
+    (hno : ∀ op ∈ ops, op ≠ .restart)
+    (hdone : (run e (newSync e db0 root cb) ops).pending = 0) :
+    hasKey (step e (run e (newSync e db0 root cb) ops) (.commit none)).1.db root = true ∧
+    DbClosed e role (step e (run e (newSync e db0 root cb) ops) (.commit none)).1.db ∧
+    (Collision e ∨ ∀ x,
+      (Reach e role (step e (run e (newSync e db0 root cb) ops) (.commit none)).1.db root x ↔ Reach e role src root x) ∧
+      (Reach e role (step e (run e (newSync e db0 root cb) ops) (.commit none)).1.db root x →
+        ∀ v, (x, v) ∈ (step e (run e (newSync e db0 root cb) ops) (.commit none)).1.db ↔ (x, v) ∈ src)) := by
+  have hroot' := complete_when_done (e := e) (db0 := db0) (cb := cb) hno hne hdone
+  have hi0 : Inv e role [] none (newSync e db0 root cb) :=
+    step_inv (init_inv hd0) (show OpOK e role (.addSub root 0 e.zeroHash cb) from ⟨rfl, hrole⟩)
+  have hi := step_inv (op := .commit none) (run_inv_at ops _ hi0 hok) trivial
+  have hk0' : HK e (newSync e db0 root cb) := hk_step (op := .addSub root 0 e.zeroHash cb) (hk_init hk0) trivial
+  have hk := hk_step (op := .commit none) (hk_run ops _ hk0' hkey) trivial
+  exact ⟨hroot', hi.db, reads_identical_content hi.db hk.db hsrc hksrc hroot' hroot⟩
+
+/-- **schedule_independent.**  Two schedules for the same root — different order, batching, duplication, delays,
+corruptions, `Missing` answers, writer failures — that both report completion leave databases from which a reader
+sees exactly the same entries, or a Keccak collision exists. -/
+theorem schedule_independent {db1 db2 : List Entry} {root : Hash} {cb : Bool} {ops1 ops2 : List Op}
+    (hd1 : DbClosed e role db1) (hk1 : HashKeyed e db1) (hd2 : DbClosed e role db2) (hk2 : HashKeyed e db2)
+    (hrole : root = e.emptyRoot ∨ (role root = .node cb ∧ root ≠ e.zeroHash)) (hne : root ≠ e.emptyRoot)
+    (hok1 : RunOK e role (newSync e db1 root cb) ops1) (hkey1 : ∀ op ∈ ops1, OpKeyed e op) (hno1 : ∀ op ∈ ops1, op ≠ .restart)
+    (hok2 : RunOK e role (newSync e db2 root cb) ops2) (hkey2 : ∀ op ∈ ops2, OpKeyed e op) (hno2 : ∀ op ∈ ops2, op ≠ .restart)
+    (hdone1 : (run e (newSync e db1 root cb) ops1).pending = 0)
+    (hdone2 : (run e (newSync e db2 root cb) ops2).pending = 0) :
+    Collision e ∨ ∀ x,
+      (Reach e role (step e (run e (newSync e db1 root cb) ops1) (.commit none)).1.db root x ↔
+        Reach e role (step e (run e (newSync e db2 root cb) ops2) (.commit none)).1.db root x) ∧
+      (Reach e role (step e (run e (newSync e db1 root cb) ops1) (.commit none)).1.db root x →
+        ∀ v, (x, v) ∈ (step e (run e (newSync e db1 root cb) ops1) (.commit none)).1.db ↔
+          (x, v) ∈ (step e (run e (newSync e db2 root cb) ops2) (.commit none)).1.db) := by
+  have hr1 := complete_when_done (e := e) (db0 := db1) (cb := cb) hno1 hne hdone1
+  have hr2 := complete_when_done (e := e) (db0 := db2) (cb := cb) hno2 hne hdone2
+  have mk : ∀ (db0 : List Entry) (ops : List Op), DbClosed e role db0 → HashKeyed e db0 →
+      RunOK e role (newSync e db0 root cb) ops → (∀ op ∈ ops, OpKeyed e op) →
+      DbClosed e role (step e (run e (newSync e db0 root cb) ops) (.commit none)).1.db ∧
+      HashKeyed e (step e (run e (newSync e db0 root cb) ops) (.commit none)).1.db := by
+    intro db0 ops hd hk hok hkey
+    have hi0 : Inv e role [] none (newSync e db0 root cb) :=
+      step_inv (init_inv hd) (show OpOK e role (.addSub root 0 e.zeroHash cb) from ⟨rfl, hrole⟩)
+    have hk0' : HK e (newSync e db0 root cb) := hk_step (op := .addSub root 0 e.zeroHash cb) (hk_init hk) trivial
+    exact ⟨(step_inv (op := .commit none) (run_inv_at ops _ hi0 hok) trivial).db,
+      (hk_step (op := .commit none) (hk_run ops _ hk0' hkey) trivial).db⟩
+  obtain ⟨c1, k1⟩ := mk db1 ops1 hd1 hk1 hok1 hkey1
+  obtain ⟨c2, k2⟩ := mk db2 ops2 hd2 hk2 hok2 hkey2
+  exact reads_identical_content c1 k1 c2 k2 hr1 hr2
 
 /-! ## The property is false without role consistency: known finding F-C19a
 
@@ -140,6 +252,25 @@ example : ∀ op ∈ okOps, OpOK okEnv okRole op := by
        simp [okEnv, cxEnv] at hv hr
        try subst hv
        try simp_all [okRole, AddOK, okEnv, cxEnv])
+
+example : RunOK okEnv okRole (St.init []) okOps :=
+  runOK_of_opOK okOps _ (by
+    intro op hop
+    simp only [okOps, List.mem_cons, List.not_mem_nil, or_false] at hop
+    rcases hop with rfl | rfl | rfl | rfl | rfl | rfl | rfl | rfl | rfl | rfl | rfl | rfl | rfl | rfl | rfl | rfl | rfl | rfl | rfl
+    all_goals first
+      | trivial
+      | (refine ⟨rfl, Or.inr ⟨by decide, by decide⟩⟩)
+      | (intro cb hr nv hv
+         simp [okEnv, cxEnv] at hv hr
+         try subst hv
+         try simp_all [okRole, AddOK, okEnv, cxEnv]))
+
+example : ∀ op ∈ okOps, OpKeyed okEnv op := by
+  intro op hop
+  simp only [okOps, List.mem_cons, List.not_mem_nil, or_false] at hop
+  rcases hop with rfl | rfl | rfl | rfl | rfl | rfl | rfl | rfl | rfl | rfl | rfl | rfl | rfl | rfl | rfl | rfl | rfl | rfl | rfl
+  all_goals trivial
 
 /-- test on literals: the schedule above ends complete with everything reachable stored -/
 example : (run okEnv (St.init []) okOps).pending = 0 ∧ (run okEnv (St.init []) okOps).dbHas 10 = true ∧
